@@ -104,6 +104,42 @@ def roundtrip(t, root):
         return ('bad', 're-parsed document differs: ...%s | ...%s' % (a[max(0, i - 60):i + 40], b[max(0, i - 60):i + 40]), text)
     return ('ok',)
 
+# ---- (0) whitespace-only text nodes (pretty-printed or hand-edited XML) in positions the unparser trims: they are layout and may go, but
+# nothing else may change - same elements, same attributes, same non-blank text ----
+WS_DOCS = [
+    ('act', '<p>see <remark status="editorial">first<br/> <b>second</b></remark></p>'),
+    ('act', '<p>see <remark status="editorial">first<br/>\n   <i>second</i> third<br/> \t<b>fourth</b></remark> end</p>'),
+    ('act', '<blockList><listIntroduction> <b>intro</b> text</listIntroduction><item><num>(a)</num><p>x</p></item><listWrapUp> <b>wrap</b> up</listWrapUp></blockList>'),
+    ('act', '<p> <b>bold</b> tail</p><p>\n  <i>it</i>\n</p>'),
+    ('act', '<table><tr><td><p> <b>cell</b></p></td><th><p>  <sup>1</sup> x</p></th></tr></table>'),
+    ('act', '<ul><li><p> <u>u</u> v</p></li><li><p>\t<b>tab</b> text</p></li></ul>'),
+]
+
+def _ws(i):
+    root, inner = WS_DOCS[i]
+    ns = xmlsx.NS
+    t = etree.fromstring('<akomaNtoso xmlns="%s"><%s name="%s"><body><section><num>1</num><content>%s</content></section>'
+                         '<section><num>2</num><subsection><num>(1)</num><content><p>deep</p></content></subsection>'
+                         '<wrapUp><p> <b>bold</b> tail</p></wrapUp></section></body></%s></akomaNtoso>' % (ns, root, root, inner, root))
+    p = impl.parser()
+    try:
+        text = p.unparse(t)
+        x1 = p.parse_to_xml(text, root)
+    except Exception as e:
+        return ('bad', 'round trip raised %s' % impl.exc_kind(e), None)
+    def skel(x):
+        out = []
+        for el in x.iter():
+            if not isinstance(el.tag, str) or xmlsx.local(el.tag) == 'meta' or any(xmlsx.local(a.tag) == 'meta' for a in el.iterancestors()): continue
+            out.append((xmlsx.local(el.tag), tuple(sorted((k, v) for k, v in el.attrib.items() if k != 'eId')),
+                        ''.join((el.text or '').split()), ''.join((el.tail or '').split())))
+        return out
+    a, b = skel(t), skel(x1)
+    if a != b:
+        i = next((i for i in range(min(len(a), len(b))) if a[i] != b[i]), min(len(a), len(b)))
+        return ('bad', 'apart from blank text the re-parsed document differs at element %d: %r | %r' % (i, a[i:i + 2], b[i:i + 2]), text)
+    return ('ok', None, text)
+
 # ---- (1) poison ----
 def _oracle(args):
     seed, root = args
@@ -378,6 +414,11 @@ def search(ctx, budget):
         elif r[0] == 'ok':
             ctx.count('poisoned_nodes', r[2])
             if r[2] >= 2: ctx.nontrivial(('poison',) + j)
+    # (0)
+    for i, r in enumerate(impl.pmap(_ws, list(range(len(WS_DOCS))), chunk=1)):
+        ctx.evaluations += 1; ctx.count('blank_text_' + r[0])
+        if r[0] == 'bad':
+            ctx.failures.append(({'stage': 'blank-text', 'doc': i, 'xml': WS_DOCS[i][1], 'unparsed': r[2]}, r[1]))
     # (2)
     strs = slot_strings(2 if ctx.quick and budget == 1 else 3)
     if ctx.quick and budget == 1:
@@ -455,6 +496,8 @@ def replay(obj):
     if not case:
         print('nothing to replay:', obj.get('broken_obligations')); return 1
     st = case.get('stage')
+    if st == 'blank-text':
+        r = _ws(case['doc']); print(r[:2]); return 1 if r[0] == 'bad' else 0
     if st == 'poison':
         r = _oracle((case['seed'], case['root'])); print(r[:2]); return 1 if r[0] == 'bad' else 0
     if st == 'slot':
